@@ -385,8 +385,14 @@ func (g *gen) callStmt() Stmt {
 	}
 	f := cands[g.intn(len(cands), "csf")]
 	g.class("stmt:call")
+	phony := f.Ret != nil && g.chance(50, "phonycall")
+	if !phony {
+		// known finding (tag must_use.call-arg): a @must_use call used as an argument of a call statement is rejected
+		g.noMustUse = g.f.off("must_use.call-arg")
+	}
 	c := g.buildCall(f, 3)
-	if f.Ret != nil && g.chance(50, "phonycall") {
+	g.noMustUse = false
+	if phony {
 		return &Assign{L: nil, R: c}
 	}
 	return &CallStmt{Call: c}
@@ -415,14 +421,22 @@ func (g *gen) atomicStmt() []Stmt {
 	g.class("atomic:" + op)
 	switch op {
 	case "atomicStore":
-		return []Stmt{&CallStmt{Call: &Builtin{Name: op, Args: []Expr{ptr, g.expr(Scalar(k), 2)}}}}
+		g.noMustUse = g.f.off("must_use.call-arg")
+		arg := g.expr(Scalar(k), 2)
+		g.noMustUse = false
+		return []Stmt{&CallStmt{Call: &Builtin{Name: op, Args: []Expr{ptr, arg}}}}
 	case "atomicLoad":
 		v := &Var{Name: g.name("al"), Kind: VLet, T: Scalar(k), Init: &Builtin{Name: op, Args: []Expr{ptr}, T: Scalar(k)}}
 		g.declare(v)
 		return []Stmt{&DeclStmt{V: v}}
 	}
+	keep := !g.multi && g.chance(50, "aret")
+	if !keep {
+		g.noMustUse = g.f.off("must_use.call-arg")
+	}
 	call := &Builtin{Name: op, Args: []Expr{ptr, g.expr(Scalar(k), 2)}, T: Scalar(k)}
-	if !g.multi && g.chance(50, "aret") {
+	g.noMustUse = false
+	if keep {
 		v := &Var{Name: g.name("ar"), Kind: VLet, T: Scalar(k), Init: call}
 		g.declare(v)
 		return []Stmt{&DeclStmt{V: v}}
@@ -605,6 +619,15 @@ func GenExec(t *rapid.T, f Features) *ExecCase {
 	g.push() // module scope for consts
 	for i, n := 0, g.intn(3, "nconst"); i < n; i++ {
 		ct := g.valueType(1)
+		if ct.ContainsStruct() && f.off("module-const.struct") {
+			// known finding: struct-typed module constants are rejected / mis-lowered for many argument shapes
+			for tries := 0; ct.ContainsStruct(); tries++ {
+				ct = g.valueType(1)
+				if tries > 8 {
+					ct = Scalar(g.numKind())
+				}
+			}
+		}
 		cv := &Var{Name: g.name("C"), Kind: VConst, T: ct}
 		if f.off("module-const.expr") {
 			cv.Init = g.constOf(ct)
@@ -621,8 +644,10 @@ func GenExec(t *rapid.T, f Features) *ExecCase {
 	for i, n := 0, g.intn(3, "npriv"); i < n; i++ {
 		pt := g.valueType(1)
 		pv := &Var{Name: g.name("pv"), Kind: VPrivate, T: pt}
-		if g.chance(50, "privinit") {
+		if g.chance(50, "privinit") && !(pt.ContainsStruct() && f.off("private.init.struct")) {
+			g.noNeg = f.off("private-init.unary")
 			pv.Init = g.constOf(pt)
+			g.noNeg = false
 		}
 		addGlobal(pv)
 		g.privs = append(g.privs, pv)
@@ -713,7 +738,7 @@ func GenExec(t *rapid.T, f Features) *ExecCase {
 	main.Body = body
 	g.mod.Decls = append(g.mod.Decls, main)
 	// forward references: sometimes move the entry point / helpers to the front
-	if g.chance(25, "fwd") && !f.off("forward-reference") {
+	if g.chance(25, "fwd") && !f.off("forward-reference") && !(g.anyBitcastOnlyRefs() && f.off("forward-reference.bitcast")) {
 		g.class("forward-reference")
 		d := g.mod.Decls
 		last := d[len(d)-1]
@@ -727,6 +752,18 @@ func GenExec(t *rapid.T, f Features) *ExecCase {
 	}
 	sort.Strings(c.Classes)
 	return c
+}
+
+// anyBitcastOnlyRefs: some function names a module-scope declaration only
+// inside bitcast<T>(…) (known finding: such a use is invisible to naga's
+// declaration ordering, so a forward reference stays unresolved).
+func (g *gen) anyBitcastOnlyRefs() bool {
+	for _, f := range g.mod.Funcs() {
+		if bitcastOnlyRefs(f) {
+			return true
+		}
+	}
+	return false
 }
 
 // blockNoScope generates statements into the current scope (so that
